@@ -325,6 +325,14 @@ func (sc *SCtx) typeByName(name string) (types.Type, error) {
 				}
 			}
 		}
+		// a package outside the repository (dependency)
+		for _, sp := range sc.g.P.Prog.AllPackages() {
+			if sp.Pkg != nil && sp.Pkg.Path() == name[:i] {
+				if tn, ok := sp.Pkg.Scope().Lookup(name[i+1:]).(*types.TypeName); ok {
+					return tn.Type(), nil
+				}
+			}
+		}
 		return nil, fmt.Errorf("unknown type %s", name)
 	}
 	if i := strings.Index(name, "."); i >= 0 {
@@ -897,6 +905,24 @@ func (sc *SCtx) call(x *ECall) (Val, error) {
 				return Val{}, fmt.Errorf("fresh: not a reference")
 			}
 			return scalar(Gt(ref, sc.old.Clk), types.Typ[types.Bool]), nil
+		case "str":
+			// str(b): the string made of the bytes of slice b (Go's string(b))
+			if len(x.Args) != 1 {
+				return Val{}, fmt.Errorf("str takes one argument")
+			}
+			v, err := sc.eval(x.Args[0])
+			if err != nil {
+				return Val{}, err
+			}
+			if v.K == VScalar && v.T != nil && v.T.S == SStr {
+				return v, nil
+			}
+			if v.K != VSlice || !isByteSlice(v.Ty) {
+				return Val{}, fmt.Errorf("str: not a byte slice")
+			}
+			h := sc.g.heapGet(sc.state(), "E:uint8", ArraySort(SInt, ArraySort(SInt, SInt)))
+			t := App("vp_bytesstr", SStr, Select(h, v.F[0].T), v.F[1].T, v.F[2].T)
+			return scalar(t, types.Typ[types.String]), nil
 		case "new":
 			// new(x) in a loop invariant: allocated since the loop was entered
 			if len(x.Args) != 1 {
